@@ -191,8 +191,9 @@ def make_literal(v, t, base, upper=False):
 # -- reference evaluation -----------------------------------------------------
 
 
-def ref_eval(e, enums=None):
-    """-> (ctype, value).  enums: {name: value}."""
+def ref_eval(e, enums=None, floor=False):
+    """-> (ctype, value).  enums: {name: value}.  floor=True: the same evaluator with the single defect that
+    `/` rounds towards minus infinity (explanatory model of a known finding)."""
     k = e[0]
     if k == "lit":
         return parse_literal(e[1])
@@ -201,14 +202,14 @@ def ref_eval(e, enums=None):
     if k == "sizeoft":
         return "unsigned long", SIZEOF_TYPES[e[1]]
     if k == "sizeofe":
-        t, _ = ref_eval(e[1], enums)
+        t, _ = ref_eval(e[1], enums, floor)
         return "unsigned long", bits(t) // 8
     if k == "cast":
-        _, v = ref_eval(e[2], enums)
+        _, v = ref_eval(e[2], enums, floor)
         return e[1], convert(v, e[1])
     if k == "un":
         op = e[1]
-        t, v = ref_eval(e[2], enums)
+        t, v = ref_eval(e[2], enums, floor)
         if op == "!":
             return "int", int(v == 0)
         t = promote(t)
@@ -223,15 +224,15 @@ def ref_eval(e, enums=None):
             return t, convert(r, t)
         raise ValueError(op)
     if k == "tern":
-        _, c = ref_eval(e[1], enums)
-        ta, va = ref_eval(e[2], enums)  # both arms must be defined: gcc diagnoses the unevaluated arm too
-        tb, vb = ref_eval(e[3], enums)
+        _, c = ref_eval(e[1], enums, floor)
+        ta, va = ref_eval(e[2], enums, floor)  # both arms must be defined: gcc diagnoses the unevaluated arm too
+        tb, vb = ref_eval(e[3], enums, floor)
         t = common(ta, tb)
         return t, convert(va if c else vb, t)
     if k == "bin":
         op = e[1]
-        ta, va = ref_eval(e[2], enums)
-        tb, vb = ref_eval(e[3], enums)
+        ta, va = ref_eval(e[2], enums, floor)
+        tb, vb = ref_eval(e[3], enums, floor)
         if op in ("&&", "||"):
             return "int", int(bool(va) and bool(vb)) if op == "&&" else int(bool(va) or bool(vb))
         if op in ("<<", ">>"):
@@ -260,6 +261,8 @@ def ref_eval(e, enums=None):
             if (va < 0) != (vb < 0):
                 q = -q
             r = q if op == "/" else va - q * vb
+            if floor and op == "/":
+                r = va // vb
             if not fits(q, t):
                 raise UB("signed overflow in division")
             return t, r
@@ -270,86 +273,214 @@ def ref_eval(e, enums=None):
     raise ValueError(k)
 
 
-# -- explanatory model of the defective evaluator ----------------------------
+# -- explanatory model of ppci's evaluator ------------------------------------
+#
+# model_eval mirrors ppci's constant evaluation with individual defects ("quirks") switched on:
+#   missing   % < > <= >= == != && || ! ?: are not implemented (exception / "must be constant" diagnostic)
+#   floor     / rounds towards minus infinity
+#   noconv    values are unbounded Python integers: casts and arithmetic never reduce to the type
+#   enumtype  an enumeration constant has the enum type, which outranks every integer type and is not
+#             an integer type for the evaluator (no shifts/bit operators, true division)
+#   charlit   a character constant has type char and the value 0..255
+#   littype   literal typing: a suffixed literal must fit the suffix's type (else rejected), an unsuffixed
+#             decimal literal may get an unsigned type
+#   optypes   unary - ~ + do not promote, << >> give the common type of both operands, ?: does not
+#             promote, long long outranks unsigned long
+#   sizet     sizeof yields (signed) long
+# With no quirk it equals ref_eval on every defined expression (checked by the self test of C27).
+
+QUIRKS = ("missing", "floor", "noconv", "enumtype", "charlit", "littype", "optypes", "sizet")
+
+_PPCI_RANK = {"char": 30, "signed char": 30, "unsigned char": 31, "short": 40, "unsigned short": 41, "int": 50,
+              "unsigned int": 51, "long": 60, "unsigned long": 61, "long long": 70, "unsigned long long": 71, "enum": 80}  # fmt: skip
 
 
-class NaiveError(Exception):
-    """The modelled evaluator raises (kind = exception type name)."""
+class ModelExc(Exception):
+    """The modelled evaluator stops: kind in missing | enum-op | literal-rejected | ZeroDivisionError | ValueError | unknown."""
 
     def __init__(self, kind):
         super().__init__(kind)
         self.kind = kind
 
 
-def naive_eval(e, enums=None, floor=True, missing=True):
-    """Unbounded-integer evaluation without any conversion (casts are no-ops, sizeof is exact).
+def _m_literal(text, Q):
+    if text.startswith("'"):
+        v = CHAR_LITS[text]
+        if "charlit" in Q:
+            return "char", v & 0xFF
+        return "int", v
+    if "littype" not in Q:
+        try:
+            return parse_literal(text)
+        except UB:
+            raise ModelExc("unknown")
+    s = text.lower()
+    body = s.rstrip("ul")
+    suf = s[len(body) :]
+    if body.startswith("0x"):
+        v = int(body[2:], 16)
+    elif body.startswith("0"):
+        v = int(body, 8)
+    else:
+        v = int(body, 10)
+    if suf:
+        t = ("unsigned " if "u" in suf else "") + {0: "int", 1: "long", 2: "long long"}[suf.count("l")]
+        if v > tmax(t):
+            raise ModelExc("literal-rejected")
+        return t, v
+    for t in ("int", "unsigned int", "long", "unsigned long", "long long", "unsigned long long"):
+        if v <= tmax(t):
+            return t, v
+    raise ModelExc("literal-rejected")
 
-    floor:   / is Python floor division (else truncating)
-    missing: % comparisons && || ! ?: raise NaiveError (else evaluated, untyped)
-    sizeof(expression) uses the reference type (the model is about values only).
-    """
+
+def _m_promote(t, Q):
+    if t != "enum" and rank(t) < 3:
+        return "int"
+    return t
+
+
+def _m_maxrank(a, b):
+    return a if _PPCI_RANK[a] >= _PPCI_RANK[b] else b
+
+
+def _m_common(a, b, Q):
+    """Common type of two promoted operand types."""
+    if a == "enum" or b == "enum":
+        return "enum"
+    if "optypes" in Q:
+        return _m_maxrank(a, b)
+    return common(a, b)
+
+
+def _m_fin(t, v, Q):
+    if "noconv" in Q or t == "enum" or not isinstance(v, int):
+        return v
+    return convert(v, t)
+
+
+def model_sizeof(t):
+    return 4 if t == "enum" else bits(t) // 8
+
+
+def model_type(e, enums, Q):
+    """Type the modelled front end gives to the expression (values play no role except in literals)."""
     k = e[0]
     if k == "lit":
-        return parse_literal(e[1])[1]
+        return _m_literal(e[1], Q)[0]
     if k == "enum":
-        return enums[e[1]]
-    if k == "sizeoft":
-        return SIZEOF_TYPES[e[1]]
-    if k == "sizeofe":
-        try:
-            return bits(ref_eval(e[1], enums)[0]) // 8
-        except UB:
-            raise NaiveError("ub")
+        return "enum" if "enumtype" in Q else "int"
+    if k in ("sizeoft", "sizeofe"):
+        return "long" if "sizet" in Q else "unsigned long"
     if k == "cast":
-        return naive_eval(e[2], enums, floor, missing)
+        return e[1]
     if k == "un":
-        v = naive_eval(e[2], enums, floor, missing)
-        op = e[1]
-        if op == "-":
-            return -v
-        if op == "~":
-            return ~v
-        if op == "+":
-            return v
-        if missing:
-            raise NaiveError("NotImplementedError")
-        return int(v == 0)
+        if e[1] == "!":
+            return "int"
+        t = model_type(e[2], enums, Q)
+        return t if "optypes" in Q else _m_promote(t, Q)
     if k == "tern":
-        if missing:
-            raise NaiveError("NotImplementedError")
-        c = naive_eval(e[1], enums, floor, missing)
-        a = naive_eval(e[2], enums, floor, missing)
-        b = naive_eval(e[3], enums, floor, missing)
-        return a if c else b
+        ta, tb = model_type(e[2], enums, Q), model_type(e[3], enums, Q)
+        return _m_maxrank(ta, tb) if ("optypes" in Q or "enum" in (ta, tb)) else common(ta, tb)
     op = e[1]
-    a = naive_eval(e[2], enums, floor, missing)
-    b = naive_eval(e[3], enums, floor, missing)
-    if op in ("+", "-", "*", "&", "|", "^"):
-        return {"+": a + b, "-": a - b, "*": a * b, "&": a & b, "|": a | b, "^": a ^ b}[op]
+    if op in ("&&", "||", "<", ">", "<=", ">=", "==", "!="):
+        return "int"
+    pa, pb = _m_promote(model_type(e[2], enums, Q), Q), _m_promote(model_type(e[3], enums, Q), Q)
+    if op in ("<<", ">>") and "optypes" not in Q and "enum" not in (pa, pb):
+        return pa
+    return _m_common(pa, pb, Q)
+
+
+def model_eval(e, enums, Q):
+    """-> (type, value) as the modelled evaluator computes them; raises ModelExc."""
+    for n in walk(e):
+        if n[0] == "lit":
+            _m_literal(n[1], Q)  # a rejected literal stops the parser before anything is evaluated
+    return _model_eval(e, enums, Q)
+
+
+def _model_eval(e, enums, Q):
+    k = e[0]
+    szt = "long" if "sizet" in Q else "unsigned long"
+    if k == "lit":
+        return _m_literal(e[1], Q)
+    if k == "enum":
+        return ("enum" if "enumtype" in Q else "int"), enums[e[1]]
+    if k == "sizeoft":
+        return szt, SIZEOF_TYPES[e[1]]
+    if k == "sizeofe":
+        return szt, model_sizeof(model_type(e[1], enums, Q))
+    if k == "cast":
+        _, v = _model_eval(e[2], enums, Q)
+        return e[1], _m_fin(e[1], int(v), Q)
+    if k == "un":
+        op = e[1]
+        t, v = _model_eval(e[2], enums, Q)
+        if op == "!":
+            if "missing" in Q:
+                raise ModelExc("missing")
+            return "int", int(not v)
+        if "optypes" not in Q:
+            t = _m_promote(t, Q)
+        if op == "+":
+            return t, v
+        if op == "~" and not isinstance(v, int):
+            raise ModelExc("unknown")
+        return t, _m_fin(t, -v if op == "-" else ~v, Q)
+    if k == "tern":
+        if "missing" in Q:
+            raise ModelExc("missing")
+        _, c = _model_eval(e[1], enums, Q)
+        t = model_type(e, enums, Q)
+        return t, _m_fin(t, _model_eval(e[2] if c else e[3], enums, Q)[1], Q)  # only the selected arm is evaluated
+    op = e[1]
+    ta, va = _model_eval(e[2], enums, Q)
+    if op in ("&&", "||") and "missing" not in Q:
+        if bool(va) == (op == "||"):
+            return "int", int(op == "||")  # short circuit
+        return "int", int(bool(_model_eval(e[3], enums, Q)[1]))
+    tb, vb = _model_eval(e[3], enums, Q)
+    if op in MISSING_BINOPS and "missing" in Q:
+        raise ModelExc("missing")
+    if op in ("<", ">", "<=", ">=", "==", "!="):
+        t = _m_maxrank(ta, tb) if ("optypes" in Q or "enum" in (ta, tb)) else common(ta, tb)
+        va, vb = _m_fin(t, va, Q), _m_fin(t, vb, Q)
+        return "int", int({"<": va < vb, ">": va > vb, "<=": va <= vb, ">=": va >= vb, "==": va == vb, "!=": va != vb}[op])
+    pa, pb = _m_promote(ta, Q), _m_promote(tb, Q)
+    if op in ("<<", ">>") and "optypes" not in Q and "enum" not in (pa, pb):
+        t = pa
+    else:
+        t = _m_common(pa, pb, Q)
+        vb = _m_fin(t, vb, Q)
+    va = _m_fin(t, va, Q)
+    if t == "enum":
+        if op in ("<<", ">>", "&", "|", "^", "%"):
+            raise ModelExc("enum-op")
+        if op == "/":
+            raise ModelExc("unknown")  # done in floating point; not modelled
+    if not (isinstance(va, int) and isinstance(vb, int)):
+        raise ModelExc("unknown")
     if op in ("<<", ">>"):
-        if b < 0 or b > 200:
-            raise NaiveError("ValueError")
-        return a << b if op == "<<" else a >> b
-    if op == "/":
-        if b == 0:
-            raise NaiveError("ZeroDivisionError")
-        if floor:
-            return a // b
-        q = abs(a) // abs(b)
-        return -q if (a < 0) != (b < 0) else q
-    if missing:
-        raise NaiveError("KeyError")
-    if op == "%":
-        if b == 0:
-            raise NaiveError("ZeroDivisionError")
-        q = abs(a) // abs(b)
-        q = -q if (a < 0) != (b < 0) else q
-        return a - q * b
-    if op == "&&":
-        return int(bool(a) and bool(b))
-    if op == "||":
-        return int(bool(a) or bool(b))
-    return int({"<": a < b, ">": a > b, "<=": a <= b, ">=": a >= b, "==": a == b, "!=": a != b}[op])
+        if vb < 0:
+            raise ModelExc("ValueError")
+        if vb > 4096:
+            raise ModelExc("unknown")
+        r = va << vb if op == "<<" else va >> vb
+    elif op in ("/", "%"):
+        if vb == 0:
+            raise ModelExc("ZeroDivisionError")
+        if "floor" in Q:
+            q = va // vb
+        else:
+            q = abs(va) // abs(vb)
+            q = -q if (va < 0) != (vb < 0) else q
+        r = q if op == "/" else va - q * vb
+    else:
+        r = {"+": va + vb, "-": va - vb, "*": va * vb, "&": va & vb, "|": va | vb, "^": va ^ vb}[op]
+    return t, _m_fin(t, r, Q)
+
+
+MISSING_BINOPS = ("%", "<", ">", "<=", ">=", "==", "!=", "&&", "||")
 
 
 # -- rendering ------------------------------------------------------------------
